@@ -194,6 +194,11 @@ def write_project(root, files):
     for rel, text in files.items():
         p = os.path.join(root, rel)
         os.makedirs(os.path.dirname(p), exist_ok=True)
+        if text.startswith("SYMLINK:"):
+            if os.path.lexists(p):
+                os.remove(p)
+            os.symlink(text[len("SYMLINK:"):], p)
+            continue
         with open(p, "w") as f:
             f.write(text)
 
